@@ -8,6 +8,7 @@ import LekkerVerif.Model.DriverNames
 import LekkerVerif.Core.Monitor
 import LekkerVerif.Core.HierSolve
 import LekkerVerif.Model.HierParams
+import LekkerVerif.Model.HierParamsWF
 import LekkerVerif.Core.HierFlatten
 import LekkerVerif.Model.WiringNet
 import LekkerVerif.Core.WFCheck
@@ -236,7 +237,7 @@ def dictToJson (d : Dict GRat) : Json := Json.arr (d.kv.map fun kv => Json.arr #
 def opPHSolve (j : Json) : Json :=
   match (j.getObjVal? "tree").toOption >>= parsePTree, (j.getObjVal? "kw").toOption >>= parseKw with
   | some t, some kw =>
-    let base := [("defaults", dictToJson t.defaults)]
+    let base := [("defaults", dictToJson t.defaults), ("pwf", t.pwf)]
     let paths : List (List Nat) := match (j.getObjVal? "paths").toOption >>= fun x => (fromJson? (α := List (List Nat)) x).toOption with
       | some ps => ps
       | none => []
